@@ -97,8 +97,9 @@ func (c CallGraph) AnalysisByFiles(restApis []apidomain.RestAPI, deps []core_dom
 	return results + "}\n", apiCallSCounts
 }
 
+// escapeStr makes a name safe between the double quotes of a DOT string: backslashes first, then quotes.
 func escapeStr(caller string) string {
-	return strings.ReplaceAll(caller, "\"", "\\\"")
+	return strings.ReplaceAll(strings.ReplaceAll(caller, "\\", "\\\\"), "\"", "\\\"")
 }
 
 func BuildMethodMap(structs []core_domain.CodeDataStruct) map[string][]string {
